@@ -179,7 +179,15 @@ class Tr:
             v = float(n['value'])
             bits = struct.unpack('>Q', struct.pack('>d', v))[0]
             fr = Fraction(v)
-            return '(flit %d (%d) %d)' % (bits, fr.numerator, fr.denominator)
+            txt = '(flit %d (%d) %d)' % (bits, fr.numerator, fr.denominator)
+            if self.unit.get('named_literals'):
+                # unit option named_literals: each floating literal becomes a definition lit_<k> of the generated file, so that
+                # theorems can speak about the constant the source contains (e.g. an error-bound coefficient)
+                lits = self.__dict__.setdefault('literals', [])
+                if txt not in lits:
+                    lits.append(txt)
+                return 'lit_%d' % lits.index(txt)
+            return txt
         if k == 'UnaryOperator':
             op = n['opcode']; a = n['inner'][0]
             if op == '!':
@@ -811,6 +819,8 @@ def translate_unit(name, unit, repo, outdir, builddir):
             hdr.append('Definition %s : Z := (%d)%%Z.' % (nm, cvals[nm]))
     for nm in sorted(dvals):
         hdr.append('Definition %s := %s.' % (nm, dvals[nm]))
+    for k_, lt in enumerate(getattr(tr, 'literals', [])):
+        hdr.append('Definition lit_%d := %s.' % (k_, lt))
     for al, target in unit.get('aliases', {}).items():
         hdr.append('Notation %s := %s (only parsing).' % (al, target))
     virt = unit.get('virtuals', {})
